@@ -1,0 +1,6 @@
+//go:build verif
+
+package cli
+
+// ParseAddress exposes parseAddress to the verification harness (build tag verif only).
+var ParseAddress = parseAddress
